@@ -29,10 +29,10 @@ Abs(x) == [kind |-> x.kind, cid |-> IF x.kind \in {"absent", "empty"} THEN 0
            sha |-> IF x.kind \in {"absent", "empty"} THEN 0 ELSE x.sha]
 AbsFs(obs) == [p \in Paths |-> Abs(obs[p])]
 
-OpOf(ev) == IF ev.op = "copy" THEN [op |-> "copy", p |-> ev.p, q |-> ev.q] ELSE [op |-> ev.op, p |-> ev.p]
+OpOf(ev) == IF ev.op \in {"copy", "mcopy"} THEN [op |-> ev.op, p |-> ev.p, q |-> ev.q] ELSE [op |-> ev.op, p |-> ev.p]
 
 Name(op) == CASE op = "new" -> "C17:new"
-              [] op = "copy" -> "C17:copy"
+              [] op \in {"copy", "mcopy"} -> "C17:copy"
               [] op = "mutate" -> "C17:independence"
               [] OTHER -> "C17:open"
 
